@@ -12,7 +12,10 @@ import (
 	"os"
 	"path/filepath"
 	"sort"
+	"strconv"
 	"strings"
+	"sync"
+	"time"
 
 	"golang.org/x/tools/go/ssa"
 )
@@ -352,8 +355,15 @@ func (u *Unit) havocAllX(st *State, why string, external bool) {
 	}
 	if external {
 		// ghosts that have not been read yet must keep their current (epoch) value across the havoc as well
-		for g, srt := range u.eng.contracts.Ghosts {
-			if !strings.HasPrefix(srt, "const ") {
+		// in name order: hget declares the epoch constant on first use, and the text of a query may not depend on
+		// map iteration order
+		gs := make([]string, 0, len(u.eng.contracts.Ghosts))
+		for g := range u.eng.contracts.Ghosts {
+			gs = append(gs, g)
+		}
+		sort.Strings(gs)
+		for _, g := range gs {
+			if srt := u.eng.contracts.Ghosts[g]; !strings.HasPrefix(srt, "const ") {
 				u.hget(st, g, srt)
 			}
 		}
@@ -2736,8 +2746,15 @@ func builtinGhostSort(name string) string {
 	return ""
 }
 
-// unreachable asks the solver (2 s) whether the current path condition is refutable from the facts gathered so far.
+// unreachable asks the solver whether the current path condition is refutable from the facts gathered so far.
 // Used only to avoid applying coarse abstractions on paths that the contract's precondition excludes.
+//
+// The answer decides which abstraction the path gets, hence which obligations the unit generates, so it must not depend
+// on the machine's load or on how long the solver binary takes to start: the query runs under a resource limit (z3's
+// rlimit, a deterministic step count: the same query gets the same answer on every run), never under a clock. The wall
+// clock limit beside it is only a backstop against a wedged process; when it strikes (or the solver could not be run)
+// the query is repeated, and if no attempt ends with a definite answer or with the resource limit the unit is reported
+// as not analysable instead of being analysed with a different abstraction.
 func (u *Unit) unreachable(st *State) bool {
 	if u.discovery || u.pure > 0 || st.pc == "true" {
 		return false
@@ -2757,15 +2774,67 @@ func (u *Unit) unreachable(st *State) bool {
 	}
 	b.WriteString("(assert " + st.pc + ")\n(check-sat)\n")
 	rq, _ := relaxQuery(b.String())
-	o := &Obligation{Query: rq}
-	solveOne(o, SolveCfg{TimeoutS: 2, TmpDir: filepath.Join(os.TempDir(), "gowp-q"), SolverSeq: []int{0}, NoRelax: true}, 0)
-	r := o.Result == "unsat"
+	res, el, rl := solveReach(rq)
+	if res == "" {
+		if u.failed == "" {
+			u.failed = "reachability query did not finish (solver could not be run to its resource limit); nothing decided"
+		}
+		res = "unknown"
+	}
+	r := res == "unsat"
 	if d := os.Getenv("GOWP_DEBUG_REACH"); d != "" {
 		os.WriteFile(fmt.Sprintf("%s/reach_%d.smt2", d, len(u.reachCache)), []byte(rq), 0o644)
-		fmt.Fprintf(os.Stderr, "reach[%s pass noObls=%v]: %s %.2fs pc=%s\n", u.root.Name(), u.noObls, o.Result, o.Time, st.pc)
+		fmt.Fprintf(os.Stderr, "reach[%s pass noObls=%v]: %s %.2fs pc=%s\n", u.root.Name(), u.noObls, res, el, st.pc)
+	}
+	if lf := os.Getenv("GOWP_REACH_LOG"); lf != "" {
+		reachLogMu.Lock()
+		if f, err := os.OpenFile(lf, os.O_APPEND|os.O_CREATE|os.O_WRONLY, 0o644); err == nil {
+			fmt.Fprintf(f, "%s\t%s\t%.3f\t%d\t%s\n", u.eng.funcKeyShort(u.root), res, el, rl, queryHash(rq)[:12])
+			f.Close()
+		}
+		reachLogMu.Unlock()
 	}
 	u.reachCache[key] = r
 	return r
+}
+
+var reachLogMu sync.Mutex
+
+// reachRlimit: z3 resource units granted to one reachability query (a quantifier-free relaxation). The queries seen on
+// the pinned tree need between a few thousand and a few hundred thousand units; the limit is far above that, so an
+// answer is "unknown" only for a query that is genuinely hard, and then on every run alike.
+const reachRlimit = 20000000
+
+// solveReach runs one reachability query on z3 5.1.0 under the resource limit. It returns "unsat", "sat" or "unknown"
+// (resource limit reached, or the solver gave up), or "" when no attempt produced an answer; the time of the last
+// attempt and the resource count z3 reports.
+func solveReach(q string) (string, float64, int64) {
+	dir := filepath.Join(os.TempDir(), "gowp-q")
+	os.MkdirAll(dir, 0o755)
+	file := filepath.Join(dir, "reach_"+queryHash(q)[:24]+"_"+itoa(os.Getpid())+".smt2")
+	if err := os.WriteFile(file, []byte(q), 0o644); err != nil {
+		return "", 0, 0
+	}
+	defer os.Remove(file)
+	sd := solverDef{"z3-5.1.0", func(f string, t int) []string {
+		return []string{"z3-new", "-smt2", "-st", "rlimit=" + strconv.FormatInt(reachRlimit, 10), "-T:" + itoa(t), f}
+	}}
+	var el float64
+	for attempt := 0; attempt < 4; attempt++ {
+		var res, out string
+		res, out, el = runSolver(sd, file, 120)
+		var rl int64
+		if i := strings.Index(out, ":rlimit-count"); i >= 0 {
+			fmt.Sscanf(strings.TrimSpace(out[i+len(":rlimit-count"):]), "%d", &rl)
+		}
+		switch res {
+		case "unsat", "sat", "unknown":
+			return res, el, rl
+		}
+		// "timeout" (wall clock backstop) or "error" (process could not be run / was killed): not an answer
+		time.Sleep(time.Duration(attempt+1) * time.Second)
+	}
+	return "", el, 0
 }
 
 func isNumLit(t string) bool {
